@@ -18,20 +18,24 @@
                       with position and queue as before, and the stack contents as before whenever the expression
                       is syntactically "clean" (`fclean`).  With pp = true (PEEK / POP allowed) the run may instead
                       end in the documented empty-stack panic (known finding C01-emptystack), never otherwise.
+     C01_termination  the converse transfer `vm_terminates_spec`: if the VM returns Ok or Err within fuel m, the Spec
+                      evaluation with fuel m is definite (induction on m, following the run with C01_simulation).
      C01_forward      whole parses, Spec -> VM, both outcomes (Match -> Pairs with that forest; Fail -> ParsingError).
-     C01_partial      whole parses, both directions, for grammars without PEEK / POP, given that the Spec evaluation
-                      of this parse terminates (for validated grammars that is C06).
+     C01_sound        whole parses, VM -> Spec, PEEK / POP allowed: a returned Pairs value is the Spec's forest.
+     C01_partial      whole parses, both directions, both outcomes, no hypothesis on termination, for every
+                      optimized grammar passing the checker `grammar_okb .. false` (no PEEK / POP).
      C01_from_parts   `C01_statement` from C01_partial + the hypotheses of Section FromParts, which name exactly what
                       separates the two:
-                        (i)   optimizer_preserves  (C05): Spec on embed_g (optimize G) = Spec on G;
+                        (i)   optimizer_preserves  (C05): Spec on embed_g (optimize G) = Spec on G (+ totality and
+                              preservation of rule names);
                         (ii)  optimized_in_fragment: optimize G passes `grammar_okb .. false`, i.e. the restrictions
                               that remain: no PEEK / POP (else the theorem holds up to the empty-stack panic), every
                               `#tag = e` has an e that produces a node of its own whenever it matches (else the VM
                               tags the previous node: known finding), `e+` as ORepOnce only with grammar-extras,
                               restore_on_err did its job (`rok`; fails for unrepaired POP_ALL, known finding 3),
                               WHITESPACE / COMMENT do not fail with a modified stack, identifiers are defined,
-                              rule names are unique, string constants are valid UTF-8 (they are Rust Strings);
-                        (iii) spec_terminates      (C06): validated grammars have terminating Spec evaluations.
+                              rule names are unique, string constants are valid UTF-8 (they are Rust Strings).
+                      Termination of the Spec (C06) is NOT needed: it transfers in both directions.
    The fragment reached is the whole `oexpr` language (stages 1-5 of the plan): terminals, sequence, choice,
    optional, repetition, RepOnce (extras), both predicates, all five rule types incl. WHITESPACE / COMMENT rules
    of every type and the four shapes of the implicit skip, all hard-coded names, Unicode property rules, Skip,
@@ -82,6 +86,18 @@ Definition C01_simulation_statement : Prop :=
 Theorem C01_simulation : C01_simulation_statement.
 Proof. exact vm_refines_spec. Qed.
 
+Definition C01_termination_statement : Prop :=
+  forall OG extras uranges pp cfg w, cfg_ok cfg -> grammar_ok OG extras uranges pp ->
+  forall m e a emit p sg s,
+    in_fragment OG extras uranges pp e = true -> rok OG (K OG) e = true -> lits_valid e ->
+    rep w a emit p sg s ->
+    (exists s', exec cfg (vm_env OG uranges) m (vm_expr OG uranges e) s = ROk s' \/
+                exec cfg (vm_env OG uranges) m (vm_expr OG uranges e) s = RErr s') ->
+    eval (embed_g OG) extras (uprop uranges) w m a emit (embed e) p sg <> SFuel.
+
+Theorem C01_termination : C01_termination_statement.
+Proof. exact vm_terminates_spec_explicit. Qed.
+
 Definition C01_forward_statement : Prop :=
   forall OG extras uranges pp cfg w, cfg_ok cfg -> grammar_okb OG extras uranges pp = true -> valid_utf8 w ->
   forall r detail n, ident_ok OG uranges pp r = true ->
@@ -100,18 +116,35 @@ Proof.
   intros OG extras uranges pp cfg w Hc Hg Hw. apply parse_refines_spec; auto. now apply grammar_okb_sound.
 Qed.
 
+Definition C01_sound_statement : Prop :=
+  forall OG extras uranges pp cfg w, cfg_ok cfg -> grammar_okb OG extras uranges pp = true -> valid_utf8 w ->
+  forall r detail m, ident_ok OG uranges pp r = true ->
+    (forall q, vm_parse OG uranges cfg w m r detail = OPairs q ->
+       exists n p sg, spec_parse (embed_g OG) extras (uprop uranges) w n r = SMatch p sg (forest q)) /\
+    (forall ps ns ap, vm_parse OG uranges cfg w m r detail = OParsingError ps ns ap ->
+       exists n, spec_parse (embed_g OG) extras (uprop uranges) w n r = SFail).
+
+Theorem C01_sound : C01_sound_statement.
+Proof.
+  intros OG extras uranges pp cfg w Hc Hg Hw r detail m Hr. pose proof (grammar_okb_sound _ _ _ _ Hg) as HG. split.
+  - intros q. exact (parse_ok_sound OG extras uranges pp cfg w Hc HG Hw r detail m q Hr).
+  - intros ps ns ap. exact (parse_err_sound OG extras uranges pp cfg w Hc HG Hw r detail m ps ns ap Hr).
+Qed.
+
 Definition C01_partial_statement : Prop :=
-  forall OG extras uranges cfg w r f,
+  forall OG extras uranges cfg w r detail,
     cfg_ok cfg -> valid_utf8 w -> grammar_okb OG extras uranges false = true ->
     ident_ok OG uranges false r = true ->
-    (exists n, spec_parse (embed_g OG) extras (uprop uranges) w n r <> SFuel) ->
-    ((exists m q, vm_parse OG uranges cfg w m r false = OPairs q /\ forest q = f) <->
-     (exists n p sg, spec_parse (embed_g OG) extras (uprop uranges) w n r = SMatch p sg f)).
+    (forall f, (exists m q, vm_parse OG uranges cfg w m r detail = OPairs q /\ forest q = f) <->
+               (exists n p sg, spec_parse (embed_g OG) extras (uprop uranges) w n r = SMatch p sg f)) /\
+    ((exists m ps ns ap, vm_parse OG uranges cfg w m r detail = OParsingError ps ns ap) <->
+     (exists n, spec_parse (embed_g OG) extras (uprop uranges) w n r = SFail)).
 
 Theorem C01_partial : C01_partial_statement.
 Proof.
-  intros OG extras uranges cfg w r f Hc Hw Hg Hr Ht.
-  apply (parse_iff_spec OG extras uranges false cfg w Hc (grammar_okb_sound _ _ _ _ Hg) Hw r false f eq_refl Hr Ht).
+  intros OG extras uranges cfg w r detail Hc Hw Hg Hr. pose proof (grammar_okb_sound _ _ _ _ Hg) as HG. split.
+  - intros f. now apply (parse_iff_spec_total OG extras uranges false cfg w Hc HG Hw r detail f).
+  - now apply (parse_fail_iff_spec_total OG extras uranges false cfg w Hc HG Hw r detail).
 Qed.
 
 (* ---------- from the parts to the full statement ---------- *)
@@ -133,20 +166,13 @@ Hypothesis optimize_names : forall G OG, valid G -> ~ known G -> optimize G = So
 (* the remaining fragment restrictions *)
 Hypothesis optimized_in_fragment : forall G OG, valid G -> ~ known G -> optimize G = Some OG ->
   grammar_okb OG extras uranges false = true.
-(* C06 *)
-Hypothesis spec_terminates : forall G, valid G -> forall w r, has_rule G r = true ->
-  exists n, spec_parse G extras (uprop uranges) w n r <> SFuel.
 
 Theorem C01_from_parts : C01_statement valid known optimize extras uranges cfg.
 Proof.
   intros G Hv Hk. destruct (optimize_total G Hv Hk) as [OG Ho]. exists OG. split; [exact Ho|].
   intros r w f Hw Hr.
-  assert (T : exists n, spec_parse (embed_g OG) extras (uprop uranges) w n r <> SFuel).
-  { destruct (spec_terminates G Hv w r Hr) as [n Hn].
-    destruct (proj2 (optimizer_preserves G OG Hv Hk Ho w r _ Hn) (ex_intro _ n eq_refl)) as [n' Hn'].
-    exists n'. congruence. }
-  rewrite (C01_partial OG extras uranges cfg w r f cfg_good Hw (optimized_in_fragment G OG Hv Hk Ho)
-             (optimize_names G OG Hv Hk Ho r Hr) T).
+  rewrite (proj1 (C01_partial OG extras uranges cfg w r false cfg_good Hw (optimized_in_fragment G OG Hv Hk Ho)
+                    (optimize_names G OG Hv Hk Ho r Hr)) f).
   split.
   - intros (n & p & sg & Hn).
     destruct (proj1 (optimizer_preserves G OG Hv Hk Ho w r (SMatch p sg f) ltac:(discriminate)) (ex_intro _ n Hn)) as [n' Hn'].
@@ -162,19 +188,19 @@ End FromParts.
    call = { ident ~ "(" ~ ")" }   atom = _{ call | ident | num | "(" ~ expr ~ ")" }  (call fails after `ident`: backtracks)
    expr = !{ atom ~ (("+" | "-") ~ atom)* }      item = { &atom ~ !"x" ~ expr }
    list = { SOI ~ item ~ ("," ~ item)* ~ EOI }                                                                    *)
-Definition I (s : string) : oexpr := OIdent (nm s).
-Definition T (s : string) : oexpr := OStr (nm s).
+Definition ri (s : string) : oexpr := OIdent (nm s).
+Definition tx (s : string) : oexpr := OStr (nm s).
 Definition ex_rules : ogrammar := [
-  {| oname := nm "WHITESPACE"; oty := RSilent; oexpr_of := T " " |};
-  {| oname := nm "ident"; oty := RAtomic; oexpr_of := OSeq (I "ASCII_ALPHA") (ORep (I "ASCII_ALPHANUMERIC")) |};
-  {| oname := nm "num"; oty := RCompound; oexpr_of := OSeq (I "ASCII_DIGIT") (ORep (I "ASCII_DIGIT")) |};
-  {| oname := nm "call"; oty := RNormal; oexpr_of := OSeq (I "ident") (OSeq (T "(") (T ")")) |};
+  {| oname := nm "WHITESPACE"; oty := RSilent; oexpr_of := tx " " |};
+  {| oname := nm "ident"; oty := RAtomic; oexpr_of := OSeq (ri "ASCII_ALPHA") (ORep (ri "ASCII_ALPHANUMERIC")) |};
+  {| oname := nm "num"; oty := RCompound; oexpr_of := OSeq (ri "ASCII_DIGIT") (ORep (ri "ASCII_DIGIT")) |};
+  {| oname := nm "call"; oty := RNormal; oexpr_of := OSeq (ri "ident") (OSeq (tx "(") (tx ")")) |};
   {| oname := nm "atom"; oty := RSilent;
-     oexpr_of := OChoice (I "call") (OChoice (I "ident") (OChoice (I "num") (OSeq (T "(") (OSeq (I "expr") (T ")"))))) |};
-  {| oname := nm "expr"; oty := RNonAtomic; oexpr_of := OSeq (I "atom") (ORep (OSeq (OChoice (T "+") (T "-")) (I "atom"))) |};
-  {| oname := nm "item"; oty := RNormal; oexpr_of := OSeq (OPosPred (I "atom")) (OSeq (ONegPred (T "x")) (I "expr")) |};
+     oexpr_of := OChoice (ri "call") (OChoice (ri "ident") (OChoice (ri "num") (OSeq (tx "(") (OSeq (ri "expr") (tx ")"))))) |};
+  {| oname := nm "expr"; oty := RNonAtomic; oexpr_of := OSeq (ri "atom") (ORep (OSeq (OChoice (tx "+") (tx "-")) (ri "atom"))) |};
+  {| oname := nm "item"; oty := RNormal; oexpr_of := OSeq (OPosPred (ri "atom")) (OSeq (ONegPred (tx "x")) (ri "expr")) |};
   {| oname := nm "list"; oty := RNormal;
-     oexpr_of := OSeq (I "SOI") (OSeq (I "item") (OSeq (ORep (OSeq (T ",") (I "item"))) (I "EOI"))) |} ].
+     oexpr_of := OSeq (ri "SOI") (OSeq (ri "item") (OSeq (ORep (OSeq (tx ",") (ri "item"))) (ri "EOI"))) |} ].
 Definition no_unicode : name -> option (list (N * N)) := fun _ => None.
 Definition ex_cfg : config := {| memchr := true; fixed3 := true; fixedlim := true |}.
 
@@ -208,7 +234,7 @@ Example ex_parse_rejects :
   | SFail, OParsingError _ _ _ => True
   | _, _ => False
   end.
-Proof. vm_compute. exact Logic.I. Qed.
+Proof. vm_compute. exact I. Qed.
 
 (* the theorem applied to the example *)
 Example ex_theorem_instance f :
@@ -220,17 +246,16 @@ Proof.
   - apply utf8b_sound. vm_compute. reflexivity.
   - exact ex_rules_ok.
   - vm_compute. reflexivity.
-  - exists 40. vm_compute. discriminate.
 Qed.
 
 (* the stack, tags and RepOnce (grammar-extras): heredoc = { PUSH(ASCII_ALPHA+) ~ "<" ~ #b = inner ~ ">" ~ POP }
    inner = ${ (!(">" ~ PEEK) ~ ANY)* }   - with pp = true (PEEK / POP present) *)
 Definition ex_stack : ogrammar := [
   {| oname := nm "inner"; oty := RCompound;
-     oexpr_of := ORep (OSeq (ONegPred (OSeq (T ">") (I "PEEK"))) (I "ANY")) |};
+     oexpr_of := ORep (OSeq (ONegPred (OSeq (tx ">") (ri "PEEK"))) (ri "ANY")) |};
   {| oname := nm "heredoc"; oty := RNormal;
-     oexpr_of := OSeq (OPush (ORepOnce (I "ASCII_ALPHA")))
-                  (OSeq (T "<") (OSeq (ONodeTag (I "inner") (nm "b")) (OSeq (T ">") (I "POP")))) |} ].
+     oexpr_of := OSeq (OPush (ORepOnce (ri "ASCII_ALPHA")))
+                  (OSeq (tx "<") (OSeq (ONodeTag (ri "inner") (nm "b")) (OSeq (tx ">") (ri "POP")))) |} ].
 
 Example ex_stack_ok : grammar_okb ex_stack true no_unicode true = true.
 Proof. vm_compute. reflexivity. Qed.
@@ -245,6 +270,8 @@ Example ex_stack_agrees :
 Proof. vm_compute. repeat split; reflexivity. Qed.
 
 Print Assumptions C01_simulation.
+Print Assumptions C01_termination.
+Print Assumptions C01_sound.
 Print Assumptions C01_forward.
 Print Assumptions C01_partial.
 Print Assumptions C01_from_parts.
